@@ -9,10 +9,17 @@
   → ["ok", {"accepted": true, "n": N, "final": {...}}]
   | ["ok", {"accepted": false, "index": i, "reason": r, "label": l, "model": snapshot}]
   `["C01.buggy", cfg, labels]` — the same through `stepBuggy` (labels "rcheck"/"rerase" in addition).
+  `["C01.sched", {"cap": n|null, "limit": n|null}, [[op, snapshot], …]]` — the scheduler hand-over model
+     (`C01_Sched.lean`) against the real `aiotasks.Scheduler` driven directly:
+     op       = ["call", j] | ["done", j]      (each followed by the internal segments clean/round/resume until none is enabled,
+                                                 as the real scheduler has settled when it is observed)
+     snapshot = [pending, running, lockHeld, accepted]
+  → ["ok", {"accepted": true, "n": N}] | ["ok", {"accepted": false, "index": i, "reason": r, "model": snapshot}]
   Anything unparsable → bad-op (never a default).
 -/
 import Kopf.Drv.Json
 import Kopf.Model.C01_Queueing
+import Kopf.Model.C01_Sched
 open Lean
 namespace Kopf.Drv.C01
 open Kopf.C01
@@ -150,6 +157,49 @@ def replay (f : State → Label → Option State) (s : State) (keys : List Nat) 
         | none => replay f s' keys (i + 1) rest
     | _ => none
 
+
+/-! ### the scheduler hand-over model -/
+
+/-- run the internal segments until none is enabled (fuel: every `clean` consumes a cleaning entry, `round` needs a
+    notification which only `clean`/`resume` renew, `resume` consumes the blocked job) -/
+def settle : Nat → Sched.S → Sched.S
+  | 0, s => s
+  | n + 1, s =>
+    match Sched.step s .clean with
+    | some s' => settle n s'
+    | none =>
+      match Sched.step s .round with
+      | some s' => settle n s'
+      | none =>
+        match Sched.step s .resume with
+        | some s' => settle n s'
+        | none => s
+
+def schedSnap (s : Sched.S) : Json :=
+  .arr #[.num s.pending.length, .num s.running.length, .bool s.blocked.isSome, .num s.accepted.length]
+
+def schedOp? (j : Json) : Option Sched.L := do
+  match ← jArr? j with
+  | [.str "call", n] => some (.call (← jNat? n))
+  | [.str "done", n] => some (.done (← jNat? n))
+  | _ => none
+
+def schedReplay (s : Sched.S) (i : Nat) : List Json → Option Json
+  | [] => some (ok (Json.mkObj [("accepted", .bool true), ("n", .num i)]))
+  | entry :: rest => do
+    match ← jArr? entry with
+    | [oj, sj] =>
+      let l ← schedOp? oj
+      match Sched.step s l with
+      | none => some (ok (Json.mkObj [("accepted", .bool false), ("index", .num i), ("reason", .str "label-not-enabled"),
+                                      ("model", schedSnap s)]))
+      | some s1 =>
+        let s' := settle (2 * (s1.cleaning.length + s1.pending.length) + 8) s1
+        if (schedSnap s').compress == sj.compress then schedReplay s' (i + 1) rest
+        else some (ok (Json.mkObj [("accepted", .bool false), ("index", .num i), ("reason", .str "snapshot-mismatch"),
+                                   ("model", schedSnap s')]))
+    | _ => none
+
 def limitOf? (cfg : Json) : Option (Option Nat) := do
   jOpt? jNat? (← jField? cfg "limit")
 
@@ -167,6 +217,10 @@ def handle : DrvHandler := fun op args =>
       match keyOf rid with
       | none => some (ok .null)
       | some parts => some (ok (.str ("//".intercalate parts)))
+  | "C01.sched", [cfg, ops] => do
+      let lim ← limitOf? cfg
+      let cap ← jOpt? jNat? (← jField? cfg "cap")
+      schedReplay (Sched.init cap lim) 0 (← jArr? ops)
   | "C01.buggy", [cfg, labels] => do
       let lim ← limitOf? cfg
       replay stepBuggy (init lim) [] 0 (← jArr? labels)
